@@ -260,8 +260,17 @@ def run(ctx, P, cs):
             for l, pl in batch[prof]:
                 if hrun.hid(pl) in r:
                     results.append((prof, l, pl, r[hrun.hid(pl)]))
+    hangs = 0
     for prof, l, pl in child:
-        results.append((prof, l, pl, hrun.run_child(bins[prof], pl, timeout=P.get("child_timeout", 20))))
+        # a timeout is re-run once with a larger limit (loaded machine); after two confirmed hangs further
+        # timeouts are believed at once, and after eight no more child processes are started: the check has
+        # its failing inputs, the rest would only cost time
+        if hangs >= 8:
+            break
+        r1 = hrun.run_child(bins[prof], pl, timeout=P.get("child_timeout", 20), _retry=(hangs < 2))
+        if r1["fate"] == "timeout":
+            hangs += 1
+        results.append((prof, l, pl, r1))
     nruns, nontrivial, ops_hist, fate_hist, out_hist, samples = 0, set(), {}, {}, {}, []
     compared, lines_compared = 0, 0
     mism = []
